@@ -31,7 +31,7 @@ pub const UNKNOWN: i64 = -50;
 pub const GARBAGE: i64 = 99;
 
 /// event sizes, as MC_EvSize in spec/MCFileWorker.tla
-pub const EV_SIZE: [usize; 24] = [3, 4, 3, 4, 3, 4, 3, 4, 3, 4, 3, 4, 3, 4, 3, 4, 3, 4, 3, 4, 3, 4, 3, 4];
+pub const EV_SIZE: [usize; 30] = [3, 4, 3, 4, 3, 4, 3, 4, 3, 4, 3, 4, 3, 4, 3, 4, 3, 4, 3, 4, 3, 4, 3, 4, 3, 4, 3, 4, 3, 4];
 
 /// The complete bytes of event e (1-based): a letter repeated, then the separator.
 pub fn ev_bytes(e: i64) -> Vec<u8> {
